@@ -398,7 +398,7 @@ def run_property(pid, tier, budget=1.0, jobs=0, use_known=True):
 
     # 3. evidence
     dn = len(merged["nontrivial"])
-    floor = getattr(mod, "FLOOR", {}).get(tier, 2)
+    floor = int(getattr(mod, "FLOOR", {}).get(tier, 2) * min(1.0, budget))  # (--budget is a development flag; the vacuity floor scales with it)
     wall = time.time() - t0
     cov = {
         "evaluations": int(merged["evaluations"]),
